@@ -8,32 +8,45 @@ package clock
 // uninterpreted specification functions (uf_*) and ghost state (gh_*). Nothing in them is
 // ever called by the cache; govc reads them together with the real function bodies.
 
-func requires(args ...any)  {}
-func ensures(args ...any)   {}
-func invariant(args ...any) {}
-func decreases(args ...any) {}
-func modifies(args ...any)  {}
-func assumes(args ...any)   {}
-func asserts(args ...any)   {}
-func flag(name string)      {}
-func reveal(names ...string) {}
+func requires(args ...any)                 {}
+func ensures(args ...any)                  {}
+func invariant(args ...any)                {}
+func decreases(args ...any)                {}
+func modifies(args ...any)                 {}
+func assumes(args ...any)                  {}
+func asserts(args ...any)                  {}
+func flag(name string)                     {}
+func reveal(names ...string)               {}
 func only(clause string, labels ...string) {}
 func hide(clause string, labels ...string) {}
-func set(target any, v any) {}
-func setall(target any, v any) {}
-func havoc(target any)      {}
+func set(target any, v any)                {}
+func setall(target any, v any)             {}
+func havoc(target any)                     {}
 
-func old[T any](x T) T                 { return x }
-func all[T any](f func(T) bool) bool   { panic("spec") }
-func ex[T any](f func(T) bool) bool    { panic("spec") }
+func old[T any](x T) T                        { return x }
+func all[T any](f func(T) bool) bool          { panic("spec") }
+func ex[T any](f func(T) bool) bool           { panic("spec") }
 func upto[T any](n int, f func(T) bool) bool  { panic("spec") }
 func anyof[T any](n int, f func(T) bool) bool { panic("spec") }
-func imp(a, b bool) bool               { return !a || b }
-func iff(a, b bool) bool               { return a == b }
-func ifelse[T any](c bool, a, b T) T   { if c { return a }; return b }
-func held(lock any) bool               { panic("spec") }
-func heldR(lock any) bool              { panic("spec") }
-func fresh(x any) bool                 { panic("spec") }
+func imp(a, b bool) bool                      { return !a || b }
+func iff(a, b bool) bool                      { return a == b }
+func ifelse[T any](c bool, a, b T) T {
+	if c {
+		return a
+	}
+	return b
+}
+func held(lock any) bool                           { panic("spec") }
+func heldR(lock any) bool                          { panic("spec") }
+func fresh(x any) bool                             { panic("spec") }
+func has[K comparable, V any](m map[K]V, k K) bool { _, ok := m[k]; return ok }
+func heldPolicy() bool                             { panic("spec") }
+func heldShard() bool                              { panic("spec") }
+func heldShardR() bool                             { panic("spec") }
+func owned(x any) bool                             { panic("spec") }
+func same(a, b any) bool                           { panic("spec") }
+func wsum(l any) int64                             { panic("spec") } // sum of policyWeight over the ghost member set of list l
+func card(l any) int                               { panic("spec") } // number of ghost members of list l
 
 type real float64
 type mathint int
